@@ -216,6 +216,14 @@ def protocol_time_course_residual(
             return cast(float, np.inf)
 
 
+def _set_best(model: Model, parameters: dict[str, float]) -> None:
+    """Leave the model at the reported values, not at the last ones the minimizer tried."""
+    p_names = model.get_parameter_names()
+    v_names = model.get_variable_names()
+    model.update_parameters({k: v for k, v in parameters.items() if k in p_names})
+    model.update_variables({k: v for k, v in parameters.items() if k in v_names})
+
+
 def steady_state(
     model: Model,
     *,
@@ -274,6 +282,7 @@ def steady_state(
     )
     match minimizer(fn, p0, {} if bounds is None else bounds).value:
         case OptimisationState(parameters, residual):
+            _set_best(model, parameters)
             return Result(
                 Fit(
                     model=model,
@@ -343,6 +352,7 @@ def time_course(
 
     match minimizer(fn, p0, {} if bounds is None else bounds).value:
         case OptimisationState(parameters, residual):
+            _set_best(model, parameters)
             return Result(
                 Fit(
                     model=model,
@@ -424,6 +434,7 @@ def protocol_time_course(
 
     match minimizer(fn, p0, {} if bounds is None else bounds).value:
         case OptimisationState(parameters, residual):
+            _set_best(model, parameters)
             return Result(
                 Fit(
                     model=model,
